@@ -405,6 +405,45 @@ def analyse(ctx, F, sfx):
                 for l in out[k]:
                     fh.write('      %s\n' % l)
 
+    # R6 ingredients of the reviewed invariants: who may write parser state
+    if not sfx:
+        r6 = rep.rule('C01-R6', 'ingredients of the reviewed invariants: parser-state fields are written only by their own parser (so states only move the way the review assumed), the compiled automaton only by the once-only initialisers, and the final RPC state is absorbing', floor=8)
+        init_fns = F.cone(INIT_ROOTS)
+        W = collections.defaultdict(set)
+        for fid, f_ in F.fns.items():
+            for (k, ch, bi_, l_, ty_, dr_) in field_accesses(f_):
+                if k in ('w', 'rw') and ch:
+                    W[ch[-1]].add(fid)
+        def own(adt, allowed, fields=None):
+            for (a, fld), ws in sorted(W.items()):
+                if a != adt or (fields and fld not in fields):
+                    continue
+                extra = sorted(w for w in ws if not any(re.search(rx, w) for rx in allowed))
+                rep.check(r6, not extra, 'writers:%s.%s' % (adt.split('::')[-2] + '::' + adt.split('::')[-1], fld), 'written by %s; outside the owning parser: %s' % (sorted(x.split('::')[-1] for x in ws), extra))
+        own('proto::rpc::ProtocolState', [r'^proto::rpc::(rpc_parse|read_u32|read_string|repl_udp)$', r'ProtocolState::new$'])
+        own('proto::http::ProtocolState', [r'^proto::http::http_parse$', r'ProtocolState::new$'])
+        own('proto::ssh::ProtocolState', [r'^proto::ssh::ssh_parse$', r'ProtocolState::new$'])
+        own('proto::dissector::PacketDissector', [r'^proto::dissector::PacketDissector::<T>::', r' as proto::dissector::MPacket>::parse$'])
+        for (a, fld), ws in sorted(W.items()):
+            if a == 'smack::smack::Smack':
+                extra = sorted(w for w in ws if w not in init_fns)
+                rep.check(r6, not extra, 'writers:Smack.' + fld, 'written only by the once-only initialisers: %s' % (not extra))
+        # RPC End arm: no state write
+        rp_ = F.fn('proto::rpc::rpc_parse')
+        END_ = [i for i, v in enumerate(F.adts['proto::rpc::RpcState']['variants']) if v['name'] == 'End'][0]
+        ok_ = False
+        for bi_ in range(rp_.n):
+            se_ = rp_.switch_edges(bi_)
+            if se_ and not rp_.blocks[bi_]['cleanup'] and isinstance(se_[0], tuple) and se_[0][0] == 'discr' and 'state' in short(se_[0]) and len(se_[2]) >= 10:
+                left = [i for i in range(len(F.adts['proto::rpc::RpcState']['variants'])) if i not in se_[2]]
+                for (s_, v_) in se_[1]:
+                    if v_ == END_ or (v_ is None and left == [END_]):
+                        bl_ = {b for b in rp_.dominators() if s_ in rp_.dominators()[b]}
+                        wr_ = [1 for b in bl_ for st_ in rp_.blocks[b]['stmts'] if [p for p in st_['lhs']['p'] if isinstance(p, dict) and p.get('f') == 'state']]
+                        calls_ = [rp_.blocks[b]['term']['callee'] for b in bl_ if rp_.blocks[b]['term']['k'] == 'call' and re.search(r'read_u32$|read_string$', rp_.blocks[b]['term']['callee'])]
+                        ok_ = not wr_ and not calls_
+        rep.check(r6, ok_, 'rpc:End-absorbing', 'the End arm of rpc_parse neither assigns the state nor calls a state-changing helper: %s' % ok_)
+
     # R5 lock re-entry
     for cid in F.closures_of.get('layer_4::tcp::repl', []):
         c = F.cone([cid])
